@@ -1,7 +1,7 @@
 """All contracts, by name."""
-from . import symbolic_nodes, negation, quantifiers, mappings, toplevel, cache, required, predicate_form, hashed, constructors, aggregations
+from . import symbolic_nodes, negation, quantifiers, mappings, toplevel, cache, required, predicate_form, hashed, constructors, aggregations, rules
 
-MODULES = [symbolic_nodes, negation, quantifiers, mappings, toplevel, cache, required, predicate_form, hashed, constructors, aggregations]
+MODULES = [symbolic_nodes, negation, quantifiers, mappings, toplevel, cache, required, predicate_form, hashed, constructors, aggregations, rules]
 
 
 def all_contracts():
